@@ -91,6 +91,17 @@ DB_SCALAR_CONTRACTS(i16, int16_t)
 DB_SCALAR_CONTRACTS(i32, int32_t)
 DB_SCALAR_CONTRACTS(i64, int64_t)
 
+int64_t DecoderBuffer_remaining_size(const struct DecoderBuffer *self)
+__CPROVER_requires(DB_INV(self))
+__CPROVER_ensures(__CPROVER_return_value == self->data_size_ - self->pos_) __CPROVER_assigns();
+const char *DecoderBuffer_data_head(const struct DecoderBuffer *self)
+__CPROVER_requires(DB_INV(self))
+__CPROVER_ensures(__CPROVER_return_value == self->data_ + self->pos_) __CPROVER_assigns();
+bool DecoderBuffer_bit_decoder_active(const struct DecoderBuffer *self) __CPROVER_ensures(__CPROVER_return_value == self->bit_mode_) __CPROVER_assigns();
+void DecoderBuffer_Advance(struct DecoderBuffer *self, int64_t bytes)
+__CPROVER_requires(DB_INV(self) && bytes >= 0 && bytes <= self->data_size_ - self->pos_)
+__CPROVER_ensures(self->pos_ == __CPROVER_old(self->pos_) + bytes && DB_INV(self)) __CPROVER_assigns(self->pos_);
+
 /* ------------------------------------------------------------------ varint decoding
  * VARINT_MAXLEN is the ABSOLUTE bound ceil(bits/7) of the format (2,3,5,10), not the code's formula. */
 #define VARINT_MAXLEN_8 2
